@@ -148,6 +148,17 @@ theorem rdfa_typed_bnode_object (C : Spec.Rdfa.Ctx) (n : Nat) (a q ty : Spec.Htm
       { out := [⟨Spec.Rdfa.fresh n, Spec.Rdfa.rdfType, .iri ty⟩, ⟨S, q, Spec.Rdfa.fresh n⟩], lm := [], next := n + 1 } :=
   Spec.Rdfa.typed_bnode_object C n a q ty S hinc ha hq hty
 
+/-- `@rev` + `@property` + a resource attribute on one element: the resource is the object of the @rev triple only,
+    the @property value is the text content (step 11: a resource is taken only when @rel, @rev, @content are absent) -/
+theorem rdfa_rev_property_literal (C : Spec.Rdfa.Ctx) (n : Nat) (a p q r txt : Spec.Html.Str) (S O : Spec.Rdfa.T)
+    (hinc : C.incomplete = []) (ha : Spec.Rdfa.resSCI C.env a = some S) (hr : Spec.Rdfa.resSCI C.env r = some O)
+    (hp1 : Spec.Html.fields p = [p]) (hp2 : (Spec.Html.splitColon p).isSome = true)
+    (hp : Spec.Rdfa.resTCAs C.env p = [p]) (hq : Spec.Rdfa.resTCAs C.env q = [q]) :
+    Spec.Rdfa.procNode C [] n (.elem .span { about := some a, rev := some p, property := some q, resource := some r,
+        lang := some [] } [.text txt]) =
+      { out := [⟨O, p, S⟩, ⟨S, q, .lit txt xsdString none⟩], lm := [], next := n } :=
+  Spec.Rdfa.rev_property_literal C n a p q r txt S O hinc ha hr hp1 hp2 hp hq
+
 /-- list mapping: the @inlist children of an element that sets a new subject become one RDF collection, in
     document order, attached to that subject (for any number ≥ 1 of items) -/
 theorem rdfa_inlist_collection (C : Spec.Rdfa.Ctx) (n : Nat) (a p c : Spec.Html.Str) (cs : List Spec.Html.Str)
